@@ -1,16 +1,20 @@
 package main
 
 import (
+	"context"
 	"errors"
 	"fmt"
 	"io"
 	"math/rand"
+	"net"
+	"net/http"
 	"strconv"
 	"sync"
 	"time"
 
 	xmpp "gosrc.io/xmpp"
 	"gosrc.io/xmpp/stanza"
+	"nhooyr.io/websocket"
 )
 
 // C18: the real keepalive goroutine on a stub transport with controlled ping failures and session end.
@@ -310,6 +314,144 @@ func c18xclose(intervalMs, afterMs int) string {
 	return fmt.Sprintf("pings=%d connclosed=%v errh=%d disc=%d returned=%v afterret=%d", pings, closed, errh, disc, returned, after)
 }
 
+// freezeConn: a server-side connection that can go silent without being closed - nothing more is read from it and
+// what is written to it vanishes.
+type freezeConn struct {
+	net.Conn
+	frozen chan struct{}
+	gone   chan struct{}
+}
+
+func (f *freezeConn) Read(p []byte) (int, error) {
+	select {
+	case <-f.frozen:
+		<-f.gone
+		return 0, io.EOF
+	default:
+	}
+	n, err := f.Conn.Read(p)
+	select {
+	case <-f.frozen:
+		<-f.gone
+		return 0, io.EOF
+	default:
+	}
+	return n, err
+}
+
+func (f *freezeConn) Write(p []byte) (int, error) {
+	select {
+	case <-f.frozen:
+		return len(p), nil
+	default:
+	}
+	return f.Conn.Write(p)
+}
+
+type freezeListener struct {
+	net.Listener
+	frozen, gone chan struct{}
+}
+
+func (l *freezeListener) Accept() (net.Conn, error) {
+	c, err := l.Listener.Accept()
+	if err != nil {
+		return nil, err
+	}
+	return &freezeConn{Conn: c, frozen: l.frozen, gone: l.gone}, nil
+}
+
+// c18wsdead: a WebSocket peer that silently stops answering (no pong, no TCP error): the keepalive's Ping runs into
+// its timeout, which has to count as a failed keepalive - the transport is closed and the loss reported.
+func c18wsdead(intervalMs, aliveMs int) string {
+	stop := make(chan struct{})
+	mux := http.NewServeMux()
+	mux.HandleFunc("/", func(w http.ResponseWriter, r *http.Request) {
+		conn, err := websocket.Accept(w, r, &websocket.AcceptOptions{Subprotocols: []string{"xmpp"}})
+		if err != nil {
+			return
+		}
+		ctx := context.Background()
+		if _, _, err := conn.Read(ctx); err == nil { // the client's <open/>
+			conn.Write(ctx, websocket.MessageText, []byte(`<open xmlns="urn:ietf:params:xml:ns:xmpp-framing" id="ws1" from="localhost" version="1.0"/>`))
+			for { // pings are answered by the library while somebody reads - until the connection freezes
+				if _, _, err := conn.Read(ctx); err != nil {
+					break
+				}
+			}
+		}
+		<-stop
+	})
+	ln0, err := net.Listen("tcp", "127.0.0.1:0")
+	if err != nil {
+		return "listen-failed"
+	}
+	frozen, gone := make(chan struct{}), make(chan struct{})
+	ln := &freezeListener{Listener: ln0, frozen: frozen, gone: gone}
+	srv := &http.Server{Handler: mux}
+	go srv.Serve(ln)
+	defer srv.Close()
+	defer close(stop)
+	defer close(gone)
+	// after a while the peer goes silent: no read, no pong, no FIN
+	time.AfterFunc(time.Duration(aliveMs)*time.Millisecond, func() { close(frozen) })
+	errh, disc := 0, 0
+	var mu sync.Mutex
+	cfg := &xmpp.Config{TransportConfiguration: xmpp.TransportConfiguration{Address: "ws://" + ln.Addr().String() + "/", Domain: "localhost"},
+		Jid: "u@localhost/r", Credential: xmpp.Password("p")}
+	client, err := xmpp.NewClient(cfg, xmpp.NewRouter(), func(error) { mu.Lock(); errh++; mu.Unlock() })
+	if err != nil {
+		return "newclient-failed"
+	}
+	raw := xmpp.VerifTransport(client)
+	if _, err := raw.Connect(); err != nil {
+		return "ws-connect-failed"
+	}
+	client.SetHandler(func(e xmpp.Event) error {
+		if xmpp.VerifEventState(e) == xmpp.StateDisconnected {
+			mu.Lock()
+			disc++
+			mu.Unlock()
+		}
+		return nil
+	})
+	client.Session = &xmpp.Session{}
+	quit := make(chan struct{})
+	kdone, rdone := make(chan struct{}), make(chan struct{})
+	start := time.Now()
+	go func() {
+		defer close(kdone)
+		xmpp.VerifKeepalive(raw, time.Duration(intervalMs)*time.Millisecond, quit)
+	}()
+	go func() {
+		defer close(rdone)
+		defer func() { recover() }()
+		xmpp.VerifRecv(client, quit)
+	}()
+	returned := true
+	// Ping gives up after 5 s (pingTimeout); allow twice that after the peer went silent
+	deadline := start.Add(time.Duration(aliveMs)*time.Millisecond + 11*time.Second)
+	for _, ch := range []chan struct{}{kdone, rdone} {
+		select {
+		case <-ch:
+		case <-time.After(time.Until(deadline)):
+			returned = false
+		}
+	}
+	el := time.Since(start)
+	if !returned {
+		raw.Close() // release what is still blocked
+		select {
+		case <-quit:
+		default:
+			func() { defer func() { recover() }(); close(quit) }()
+		}
+	}
+	mu.Lock()
+	defer mu.Unlock()
+	return fmt.Sprintf("returned=%v disc=%d errh=%d ms=%d", returned, disc, errh, el.Milliseconds())
+}
+
 func (c18) Exec(c Case) []string {
 	obs := make([]string, len(c.Ops))
 	var wg sync.WaitGroup
@@ -321,6 +463,16 @@ func (c18) Exec(c Case) []string {
 			go func(i int) {
 				defer wg.Done()
 				obs[i] = c18xrun(iv, k)
+			}(i)
+			continue
+		}
+		if op[0] == "wsdead" && len(op) == 3 {
+			iv, _ := strconv.Atoi(op[1])
+			al, _ := strconv.Atoi(op[2])
+			wg.Add(1)
+			go func(i int) {
+				defer wg.Done()
+				obs[i] = c18wsdead(iv, al)
 			}(i)
 			continue
 		}
@@ -398,6 +550,11 @@ func (c18) Generate(rng *rand.Rand, tier string, st *Stats) []Case {
 		for k := 1; k <= 4; k++ {
 			ops = append(ops, []string{"xrun", strconv.Itoa([]int{4, 7, 12}[(k+b)%3]), strconv.Itoa(k)})
 			st.Inc("dead_connection_real_transport")
+		}
+		// a WebSocket peer that goes silent (takes the 5 s ping timeout: once per run in the quick tier)
+		if b == 0 || tier == "thorough" && b%5 == 0 {
+			ops = append(ops, []string{"wsdead", "100", "300"})
+			st.Inc("websocket_peer_goes_silent")
 		}
 		// keepalives of a STARTTLS session travel inside the TLS session
 		ops = append(ops, []string{"tlsrun", strconv.Itoa([]int{15, 25, 40}[b%3]), "6"})
